@@ -143,6 +143,13 @@ one_config(size_t size, uint32_t place, int ck, int with_aux, size_t auxsize, vh
             unsigned char part[160];
             img(part, n, salt++);
             unsigned char *psrc = vh_arena_copy(part, n);
+            /* now and then the record is assembled in the very buffer that also serves as the instance's auxiliary
+             * buffer (one scratch buffer for both purposes) */
+            if (with_aux && n > 0 && n <= auxsize && (salt % 5) == 0) {
+                memcpy(aux, part, n);
+                psrc = aux;
+                VH_COUNT("partial store whose source lies in the auxiliary buffer");
+            }
             ps_log_reset();
             rc = persistent_store_part(&st, psrc, off, n);
             snprintf(ctx, sizeof ctx, "size=%zu place=%u auxsize=%zu store_part(off=%zu,n=%zu)", size, place, auxsize,
@@ -662,6 +669,7 @@ harness_run(void)
     vh_require("image whose checksum is zero stored and validated");
     vh_require("image whose checksum is all-ones stored and validated");
     vh_require("partial store onto an unsealed medium");
+    vh_require("partial store whose source lies in the auxiliary buffer");
     vh_require("image stored over a different image with the same checksum (default-sum16)");
     vh_require("image stored over a different image with the same checksum (crc16-arc)");
     vh_require("large data size 65536");
